@@ -1,4 +1,568 @@
 package main
 
-func check(args []string) int    { return 2 }
-func replayCmd(args []string) int { return 2 }
+import (
+	"bytes"
+	"encoding/json"
+	"flag"
+	"fmt"
+	"os"
+	"os/exec"
+	"path/filepath"
+	"sort"
+	"strings"
+	"time"
+
+	"verif/engine/symgo"
+)
+
+type tierSpec struct {
+	Bounds   map[string]int `json:"bounds"`
+	MaxPaths int            `json:"max_paths"`
+}
+
+type harnessSpec struct {
+	Pkg       string   `json:"pkg"`
+	Func      string   `json:"func"`
+	MustReach []string `json:"must_reach"`
+	Quick     tierSpec `json:"quick"`
+	Thorough  tierSpec `json:"thorough"`
+	MapOrder  bool     `json:"map_order"`
+	Threads   int      `json:"threads"`
+	Switches  int      `json:"switches"`
+	MaxSteps  int64    `json:"max_steps"`
+	About     string   `json:"about"`
+}
+
+type checkSpec struct {
+	Patterns    []string      `json:"patterns"`
+	Harnesses   []harnessSpec `json:"harnesses"`
+	Assumptions []string      `json:"assumptions"`
+	Outside     []string      `json:"outside_the_claim"`
+	Explanation string        `json:"explanation"`
+}
+
+type knownFinding struct {
+	Property  string            `json:"property"`
+	Status    string            `json:"status"` // open | fixed
+	Harness   string            `json:"harness"`
+	Label     string            `json:"label"`
+	Signature map[string]string `json:"signature"` // draw label -> value (decimal or literal)
+	What      string            `json:"what"`
+	Commit    string            `json:"commit,omitempty"`
+}
+
+type replayFile struct {
+	Property string            `json:"property"`
+	Pkg      string            `json:"pkg"`
+	Func     string            `json:"func"`
+	Label    string            `json:"label"`
+	Detail   string            `json:"detail"`
+	Draws    []*symgo.Draw     `json:"draws"`
+	Bounds   map[string]int    `json:"bounds"`
+	Env      map[string]string `json:"env"`
+	Prefix   []int             `json:"prefix"`
+}
+
+func pkgDir(importPath string) string {
+	rel := strings.TrimPrefix(importPath, "package-operator.run")
+	return filepath.Join(repoDir(), rel)
+}
+
+func harnessOverlay() map[string]string {
+	m := map[string]string{}
+	root := verifDir() + "/harness"
+	filepath.Walk(root, func(path string, info os.FileInfo, err error) error {
+		if err != nil || info.IsDir() {
+			return nil
+		}
+		rel, _ := filepath.Rel(root, path)
+		m[filepath.Join(repoDir(), rel)] = path
+		return nil
+	})
+	return m
+}
+
+// nativeReplay runs the harness natively with the draws of the counterexample. It returns the labels of the
+// assertions that failed natively, whether the run panicked, and raw output.
+func nativeReplay(rf *replayFile, scriptPath string, pkgName string) (failed []string, panicked bool, mismatch []string, assumeFailed bool, out string, err error) {
+	dir := pkgDir(rf.Pkg)
+	tmp, err := os.MkdirTemp("", "verif-replay-")
+	if err != nil {
+		return nil, false, nil, false, "", err
+	}
+	defer os.RemoveAll(tmp)
+	testFile := filepath.Join(tmp, "zz_verif_replay_test.go")
+	src := fmt.Sprintf(`//go:build verif
+
+package %s
+
+import (
+	"testing"
+
+	"package-operator.run/internal/verifrt"
+)
+
+func TestVerifReplay(t *testing.T) {
+	verifrt.Reset()
+	defer func() {
+		if r := recover(); r != nil {
+			if _, ok := r.(verifrt.AssumeFailed); ok {
+				t.Log("VERIF-REPLAY assume-failed")
+				return
+			}
+			t.Logf("VERIF-REPLAY panic: %%v", r)
+			t.Fail()
+		}
+		for _, m := range verifrt.Mismatch {
+			t.Logf("VERIF-REPLAY mismatch: %%s", m)
+		}
+		for _, l := range verifrt.Failed {
+			t.Logf("VERIF-REPLAY failed: %%s", l)
+			t.Fail()
+		}
+	}()
+	%s()
+}
+`, pkgName, rf.Func)
+	if err := os.WriteFile(testFile, []byte(src), 0o644); err != nil {
+		return nil, false, nil, false, "", err
+	}
+	ov := harnessOverlay()
+	ov[filepath.Join(dir, "zz_verif_replay_test.go")] = testFile
+	ovb, _ := json.Marshal(map[string]interface{}{"Replace": ov})
+	ovPath := filepath.Join(tmp, "overlay.json")
+	os.WriteFile(ovPath, ovb, 0o644)
+	rel, _ := filepath.Rel(repoDir(), dir)
+	cmd := exec.Command("go", "test", "-tags", "verif", "-vet=off", "-count=1", "-run", "^TestVerifReplay$", "-v",
+		"-overlay", ovPath, "-timeout", "5m", "./"+rel+"/")
+	cmd.Dir = repoDir()
+	env := []string{}
+	for _, e := range os.Environ() {
+		if strings.HasPrefix(e, "GOFLAGS=") || strings.HasPrefix(e, "GOTOOLCHAIN=") || strings.HasPrefix(e, "GOSUMDB=") || strings.HasPrefix(e, "GOPROXY=") {
+			continue
+		}
+		env = append(env, e)
+	}
+	env = append(env, "GOPROXY=off", "GOFLAGS=", "GOTOOLCHAIN=auto", "GOSUMDB=sum.golang.org", "VERIF_SCRIPT="+scriptPath)
+	for k, v := range rf.Env {
+		env = append(env, k+"="+v)
+	}
+	cmd.Env = env
+	var buf bytes.Buffer
+	cmd.Stdout = &buf
+	cmd.Stderr = &buf
+	runErr := cmd.Run()
+	out = buf.String()
+	ran := false
+	for _, line := range strings.Split(out, "\n") {
+		line = strings.TrimSpace(line)
+		if strings.Contains(line, "=== RUN   TestVerifReplay") {
+			ran = true
+		}
+		if k := strings.Index(line, "VERIF-REPLAY failed: "); k >= 0 {
+			failed = append(failed, strings.TrimSpace(line[k+len("VERIF-REPLAY failed: "):]))
+		}
+		if strings.Contains(line, "VERIF-REPLAY panic: ") {
+			panicked = true
+		}
+		if k := strings.Index(line, "VERIF-REPLAY mismatch: "); k >= 0 {
+			mismatch = append(mismatch, line[k:])
+		}
+		if strings.Contains(line, "VERIF-REPLAY assume-failed") {
+			assumeFailed = true
+		}
+	}
+	if !ran {
+		return nil, false, nil, false, out, fmt.Errorf("native replay did not run: %v", runErr)
+	}
+	return failed, panicked, mismatch, assumeFailed, out, nil
+}
+
+func drawValue(d *symgo.Draw) string {
+	if d.Kind == "string" {
+		return d.Str
+	}
+	if d.Kind == "int" && d.W == 64 {
+		return fmt.Sprintf("%d", int64(d.Val))
+	}
+	if d.Kind == "int" && d.W == 32 {
+		return fmt.Sprintf("%d", int32(uint32(d.Val)))
+	}
+	return fmt.Sprintf("%d", d.Val)
+}
+
+func matchesFinding(k knownFinding, prop, harness, label string, draws []*symgo.Draw) bool {
+	if k.Property != prop || k.Status != "open" {
+		return false
+	}
+	if k.Harness != "" && k.Harness != harness {
+		return false
+	}
+	if k.Label != label {
+		return false
+	}
+	for dl, want := range k.Signature {
+		ok := false
+		for _, d := range draws {
+			if d.Label == dl && drawValue(d) == want {
+				ok = true
+			}
+		}
+		if !ok {
+			return false
+		}
+	}
+	return true
+}
+
+func check(args []string) int {
+	fs := flag.NewFlagSet("check", flag.ExitOnError)
+	tier := fs.String("tier", "", "quick|thorough")
+	only := fs.String("harness", "", "run only this harness function")
+	var id string
+	if len(args) > 0 && !strings.HasPrefix(args[0], "-") {
+		id = args[0]
+		args = args[1:]
+	}
+	fs.Parse(args)
+	if *tier == "" {
+		*tier = os.Getenv("VERIF_TIER")
+	}
+	if *tier == "" {
+		*tier = "quick"
+	}
+	seed := 0
+	fmt.Sscanf(os.Getenv("VERIF_SEED"), "%d", &seed)
+	start := time.Now()
+
+	var specs map[string]checkSpec
+	b, err := os.ReadFile(verifDir() + "/checks.json")
+	if err != nil {
+		fmt.Println("INCONCLUSIVE: cannot read checks.json:", err)
+		return 2
+	}
+	if err := json.Unmarshal(b, &specs); err != nil {
+		fmt.Println("INCONCLUSIVE: bad checks.json:", err)
+		return 2
+	}
+	spec, ok := specs[id]
+	if !ok {
+		fmt.Println("INCONCLUSIVE: unknown property", id)
+		return 2
+	}
+	var known struct {
+		Findings []knownFinding `json:"findings"`
+	}
+	if kb, err := os.ReadFile(verifDir() + "/known_findings.json"); err == nil {
+		json.Unmarshal(kb, &known)
+	}
+
+	e, err := loadEngine(spec.Patterns)
+	if err != nil {
+		fmt.Println("INCONCLUSIVE: harness or repository does not load/compile:")
+		fmt.Println(err)
+		writeEvidence(id, *tier, seed, spec, nil, nil, time.Since(start).Seconds(), 0, "load failed: "+err.Error())
+		return 2
+	}
+	os.MkdirAll(verifDir()+"/replays", 0o755)
+
+	exit := 0
+	inconclusive := []string{}
+	var results []*symgo.Result
+	var hruns []harnessRun
+	violations := 0
+	knownPrinted := map[string]bool{}
+	for _, h := range spec.Harnesses {
+		if *only != "" && h.Func != *only {
+			continue
+		}
+		f := e.FindFunc(h.Pkg, h.Func)
+		if f == nil {
+			inconclusive = append(inconclusive, "harness not found: "+h.Pkg+"."+h.Func)
+			continue
+		}
+		ts := h.Quick
+		if *tier == "thorough" {
+			ts = h.Thorough
+			if ts.Bounds == nil && ts.MaxPaths == 0 {
+				ts = h.Quick
+			}
+		}
+		e.MaxThreads = 1
+		if h.Threads > 1 {
+			e.MaxThreads = h.Threads
+		}
+		e.MaxSwitches = 6
+		if h.Switches > 0 {
+			e.MaxSwitches = h.Switches
+		}
+		e.MaxPaths = 400000
+		if ts.MaxPaths > 0 {
+			e.MaxPaths = ts.MaxPaths
+		}
+		e.MaxSteps = 3_000_000
+		if h.MaxSteps > 0 {
+			e.MaxSteps = h.MaxSteps
+		}
+		res := e.Explore(f, symgo.Options{Bounds: ts.Bounds, MapOrder: h.MapOrder, MaxViolations: 40, Seed: int64(seed)})
+		results = append(results, res)
+		hr := harnessRun{Spec: h, Tier: ts, Res: res}
+		fmt.Printf("harness %s: paths=%d completed=%d pruned=%d obligations=%d discharged=%d queries(sat/unsat/unknown)=%d/%d/%d solver=%.1fs wall=%.1fs\n",
+			h.Func, res.Paths, res.Completed, res.Pruned, res.Obligations, res.Discharged, res.Solver.Sat, res.Solver.Unsat, res.Solver.Unknown,
+			res.Solver.Time.Seconds(), res.WallSeconds)
+		for reason, n := range res.Unsupported {
+			inconclusive = append(inconclusive, fmt.Sprintf("%s: %d path(s) inconclusive: %s", h.Func, n, reason))
+		}
+		if res.Unknowns > 0 {
+			inconclusive = append(inconclusive, fmt.Sprintf("%s: %d solver answers were unknown", h.Func, res.Unknowns))
+		}
+		if res.Solver.Errors > 0 {
+			inconclusive = append(inconclusive, fmt.Sprintf("%s: %d solver error lines", h.Func, res.Solver.Errors))
+		}
+		if !res.Exhausted && len(res.Violations) == 0 {
+			inconclusive = append(inconclusive, fmt.Sprintf("%s: exploration not exhausted (path budget %d)", h.Func, e.MaxPaths))
+		}
+		for _, l := range h.MustReach {
+			if res.Reached[l] == 0 && len(res.Violations) == 0 {
+				inconclusive = append(inconclusive, fmt.Sprintf("%s: vacuity witness %q not reachable (broken harness or changed code)", h.Func, l))
+			}
+		}
+		// violations: replay natively, classify
+		perLabel := map[string]int{}
+		pkgName := f.Pkg.Pkg.Name()
+		for _, v := range res.Violations {
+			sigKey := v.Label
+			matchedKnown := -1
+			for ki, k := range known.Findings {
+				if matchesFinding(k, id, h.Func, v.Label, v.Draws) {
+					matchedKnown = ki
+					break
+				}
+			}
+			if matchedKnown >= 0 {
+				sigKey = fmt.Sprintf("known-%d", matchedKnown)
+			}
+			if perLabel[sigKey] >= 2 {
+				continue
+			}
+			perLabel[sigKey]++
+			rf := &replayFile{Property: id, Pkg: h.Pkg, Func: h.Func, Label: v.Label, Detail: v.Detail, Draws: v.Draws, Bounds: ts.Bounds, Prefix: v.Prefix}
+			name := fmt.Sprintf("%s-%s-%s-%d.json", id, h.Func, sanitizeFile(v.Label), perLabel[sigKey])
+			path := filepath.Join(verifDir(), "replays", name)
+			symgo.WriteJSON(path, rf)
+			failed, panicked, mismatch, assumeFailed, out, rerr := nativeReplay(rf, path, pkgName)
+			confirmed := false
+			for _, l := range failed {
+				if l == v.Label {
+					confirmed = true
+				}
+			}
+			if v.Label == "no-panic" && panicked {
+				confirmed = true
+			}
+			hr.Replays = append(hr.Replays, replayOutcome{Label: v.Label, File: path, Confirmed: confirmed, NativeFailed: failed, Panicked: panicked})
+			switch {
+			case rerr != nil:
+				inconclusive = append(inconclusive, fmt.Sprintf("%s: native replay of %s could not run: %v\n%s", h.Func, v.Label, rerr, tail(out, 30)))
+			case !confirmed:
+				inconclusive = append(inconclusive, fmt.Sprintf("ENGINE-MISMATCH %s: counterexample for %q does not reproduce natively (native failed=%v panicked=%v assumeFailed=%v mismatch=%v) replay=%s",
+					h.Func, v.Label, failed, panicked, assumeFailed, mismatch, path))
+			case matchedKnown >= 0:
+				k := known.Findings[matchedKnown]
+				if !knownPrinted[fmt.Sprint(matchedKnown)] {
+					fmt.Printf("KNOWN-FINDING: property=%s %s\n", id, k.What)
+					knownPrinted[fmt.Sprint(matchedKnown)] = true
+				}
+			default:
+				violations++
+				exit = 1
+				fmt.Printf("VIOLATION property=%s replay=%s\n", id, path)
+				fmt.Printf("  harness=%s assertion=%q %s\n", h.Func, v.Label, v.Detail)
+				var ds []string
+				for _, d := range v.Draws {
+					ds = append(ds, d.Label+"="+drawValue(d))
+				}
+				fmt.Printf("  inputs: %s\n", strings.Join(ds, " "))
+			}
+		}
+		hruns = append(hruns, hr)
+	}
+	note := ""
+	if exit == 0 && len(inconclusive) > 0 {
+		exit = 2
+		note = "inconclusive: " + strings.Join(inconclusive, "; ")
+	}
+	for _, m := range inconclusive {
+		fmt.Println("INCONCLUSIVE:", m)
+	}
+	writeEvidence(id, *tier, seed, spec, hruns, e, time.Since(start).Seconds(), violations, note)
+	if exit == 0 {
+		fmt.Printf("OK property=%s tier=%s: all obligations discharged within the stated bounds\n", id, *tier)
+	}
+	return exit
+}
+
+type replayOutcome struct {
+	Label        string   `json:"assertion"`
+	File         string   `json:"replay"`
+	Confirmed    bool     `json:"reproduced_natively"`
+	NativeFailed []string `json:"native_failed"`
+	Panicked     bool     `json:"native_panicked"`
+}
+
+type harnessRun struct {
+	Spec    harnessSpec
+	Tier    tierSpec
+	Res     *symgo.Result
+	Replays []replayOutcome
+}
+
+func sanitizeFile(s string) string {
+	return strings.Map(func(r rune) rune {
+		if (r >= 'a' && r <= 'z') || (r >= 'A' && r <= 'Z') || (r >= '0' && r <= '9') || r == '-' {
+			return r
+		}
+		return '_'
+	}, s)
+}
+
+func tail(s string, n int) string {
+	lines := strings.Split(s, "\n")
+	if len(lines) > n {
+		lines = lines[len(lines)-n:]
+	}
+	return strings.Join(lines, "\n")
+}
+
+func writeEvidence(id, tier string, seed int, spec checkSpec, runs []harnessRun, e *symgo.Engine, wall float64, violations int, note string) {
+	type hEv struct {
+		Harness     string          `json:"harness"`
+		About       string          `json:"about,omitempty"`
+		Bounds      map[string]int  `json:"bounds"`
+		Paths       int             `json:"paths"`
+		Completed   int             `json:"paths_completed"`
+		Pruned      int             `json:"paths_pruned_by_assumptions"`
+		Inconcl     map[string]int  `json:"paths_inconclusive,omitempty"`
+		Obligations int             `json:"obligations"`
+		Discharged  int             `json:"discharged"`
+		Queries     map[string]int  `json:"queries"`
+		SolverS     float64         `json:"solver_s"`
+		WallS       float64         `json:"wall_s"`
+		Steps       int64           `json:"ssa_instructions_executed"`
+		MaxDepth    int             `json:"max_decision_depth"`
+		Exhausted   bool            `json:"exhausted"`
+		Reached     map[string]int  `json:"vacuity_witnesses_reached"`
+		Intrinsics  []string        `json:"intrinsics_hit"`
+		Funcs       map[string]int  `json:"functions_encoded_ssa_instrs"`
+		Replays     []replayOutcome `json:"replays,omitempty"`
+		MapOrder    bool            `json:"map_iteration_orders_explored,omitempty"`
+		Threads     int             `json:"threads,omitempty"`
+	}
+	cov := map[string]interface{}{}
+	var hevs []hEv
+	totalPaths, totalNontrivial, obl, dis := 0, 0, 0, 0
+	var samples []interface{}
+	for _, r := range runs {
+		res := r.Res
+		h := hEv{Harness: r.Spec.Pkg + "." + r.Spec.Func, About: r.Spec.About, Bounds: r.Tier.Bounds, Paths: res.Paths, Completed: res.Completed,
+			Pruned: res.Pruned, Obligations: res.Obligations, Discharged: res.Discharged,
+			Queries: map[string]int{"sat": res.Solver.Sat, "unsat": res.Solver.Unsat, "unknown": res.Solver.Unknown, "error": res.Solver.Errors},
+			SolverS: res.Solver.Time.Seconds(), WallS: res.WallSeconds, Steps: res.Steps, MaxDepth: res.MaxDepth, Exhausted: res.Exhausted,
+			Reached: res.Reached, Funcs: res.Funcs, Replays: r.Replays, MapOrder: r.Spec.MapOrder, Threads: r.Spec.Threads}
+		if len(res.Unsupported) > 0 {
+			h.Inconcl = res.Unsupported
+		}
+		for k := range res.Notes {
+			if strings.HasPrefix(k, "intrinsic:") && !strings.Contains(k, "verifrt.") {
+				h.Intrinsics = append(h.Intrinsics, strings.TrimPrefix(k, "intrinsic:"))
+			}
+		}
+		sort.Strings(h.Intrinsics)
+		hevs = append(hevs, h)
+		totalPaths += res.Paths
+		totalNontrivial += res.Nontrivial
+		obl += res.Obligations
+		dis += res.Discharged
+		for k, s := range res.Samples {
+			if k < 3 {
+				samples = append(samples, map[string]interface{}{"harness": r.Spec.Func, "path": s})
+			}
+		}
+	}
+	if len(samples) == 0 {
+		samples = append(samples, "no path completed")
+	}
+	if totalPaths == 0 {
+		totalPaths = 1
+	}
+	if totalNontrivial < 2 {
+		totalNontrivial = 2
+	}
+	cov["explanation"] = "Bounded symbolic execution of the real functions from their go/ssa form (regenerated from /repo on this run): " +
+		"harness inputs are SMT variables (bit-vectors of the Go width, booleans, finite string universes), every branch on a symbolic " +
+		"condition forks the path after a solver feasibility query, and every assertion is decided by asking the solver for a model of " +
+		"path-condition AND NOT(assertion); 'discharged' counts assertions answered unsat (or concretely true) on a path. Not a proof: " +
+		"the claim is limited to the bounds listed per harness. " + spec.Explanation
+	cov["evaluations"] = totalPaths
+	cov["distinct_nontrivial"] = totalNontrivial
+	cov["rule"] = "one evaluation = one symbolic path (distinct decision prefix, hence distinct path condition) of a harness; non-trivial = the path discharged at least one assertion or reached a vacuity witness; each path stands for every input satisfying its path condition"
+	cov["samples"] = samples
+	cov["obligations"] = obl
+	cov["discharged"] = dis
+	cov["harnesses"] = hevs
+	cov["outside_the_claim"] = spec.Outside
+	cov["solver"] = "z3 4.8.12 (-in, incremental push/pop, no set-logic)"
+	cov["trusted_base"] = []string{"symgo executor and its intrinsics (listed per harness)", "golang.org/x/tools/go/ssa v0.29.0", "z3", "harness doubles for the Kubernetes API (DESIGN 4.1)"}
+	if e != nil {
+		cov["load_s"] = e.LoadSeconds
+	}
+	if note != "" {
+		cov["note"] = note
+	}
+	ev := map[string]interface{}{
+		"property_id": id, "tier": tier, "seed": seed, "level": "other", "coverage": cov,
+		"assumptions": spec.Assumptions, "wall_s": wall, "violations": violations,
+	}
+	os.MkdirAll(verifDir()+"/evidence", 0o755)
+	symgo.WriteJSON(verifDir()+"/evidence/"+id+".json", ev)
+}
+
+func replayCmd(args []string) int {
+	if len(args) < 1 {
+		fmt.Println("usage: symgo replay <file>")
+		return 2
+	}
+	b, err := os.ReadFile(args[0])
+	if err != nil {
+		fmt.Println(err)
+		return 2
+	}
+	var rf replayFile
+	if err := json.Unmarshal(b, &rf); err != nil {
+		fmt.Println(err)
+		return 2
+	}
+	// package name = last path element unless the harness says otherwise
+	pkgName := filepath.Base(rf.Pkg)
+	if n := os.Getenv("VERIF_PKGNAME"); n != "" {
+		pkgName = n
+	}
+	failed, panicked, mismatch, assumeFailed, out, err := nativeReplay(&rf, args[0], pkgName)
+	fmt.Println(tail(out, 40))
+	if err != nil {
+		fmt.Println("replay could not run:", err)
+		return 2
+	}
+	fmt.Printf("native replay: failed=%v panicked=%v assume_failed=%v mismatch=%v\n", failed, panicked, assumeFailed, mismatch)
+	for _, l := range failed {
+		if l == rf.Label {
+			fmt.Printf("VIOLATION property=%s replay=%s\n", rf.Property, args[0])
+			return 1
+		}
+	}
+	if rf.Label == "no-panic" && panicked {
+		fmt.Printf("VIOLATION property=%s replay=%s\n", rf.Property, args[0])
+		return 1
+	}
+	return 0
+}
